@@ -1248,6 +1248,12 @@ func (x *Exec) tryMerge(s *State, f *Frame, c string) bool {
 
 var baselineParams map[string][]string
 
+func baselineParamsOf(fn string) ([]string, bool) {
+	baselineParamName(fn, 0)
+	ns, ok := baselineParams[fn]
+	return ns, ok
+}
+
 func baselineParamName(fn string, i int) string {
 	if baselineParams == nil {
 		baselineParams = map[string][]string{}
